@@ -6,6 +6,21 @@ HOOK_COMMITS = ["01ad918"]
 
 # id -> (category, technique, level text, level note, design ref)
 CHECKS = {
+ "C10": ("exploration",
+         "exhaustive enumeration of data (all Unicode scalars, structured doubles, boundary numbers, reader symbols, container chains) through write -> read -> write and quote-eval",
+         "Every datum of the enumerated families is written with the real printer, read with the real reader and compared structurally (value + exactness), then quoted and evaluated in a real VM. Characters are covered completely (all 1,112,064 scalar values); doubles structurally (every exponent x 24 mantissa patterns x sign); containers as all chains of depth <= 4 (quick) / 6 (thorough) over 12 shapes.",
+         "Doubles outside the structured set are not claimed; number representation is not compared, only value and exactness.",
+         "5.10"),
+ "C11": ("exploration",
+         "exhaustive enumeration of lexeme soups, short character strings and every token-boundary prefix of written data against span invariants and a pushdown reference recogniser",
+         "All concatenations of <= 5 (quick) / 6 (thorough) lexemes over a 28-lexeme table and all strings of <= 3 characters over a 30-character alphabet go through scan, parse (shared cursor) and the parse_text loop; token spans are checked against an independent gap scanner and consumption/incompleteness verdicts against a recogniser over token types; every token-boundary prefix of well-formed datum sequences must be Incomplete inside a datum and complete between data.",
+         "The REPL validator and the web front end are thin loops over the same library calls and cannot be linked; the harness mirrors their loop. Invalid character names/string escapes may be reported in place of Incomplete.",
+         "5.11"),
+ "C16": ("exploration",
+         "exhaustive enumeration of palette numbers x radices through number->string, string->number and prefixed literals",
+         "Every exact palette number in every internal representation at radix 2, 8, 10, 16, small rationals, integers around every representation boundary, and ~33k (quick) / 98k (thorough) finite doubles at radix 10 are printed by the real procedure, read back by the real procedure and by the real reader with the radix prefix, and compared by exact value and exactness.",
+         "Doubles outside the structured set are not claimed.",
+         "5.16"),
  "C20": ("exploration",
          "exhaustive enumeration of all lexeme strings x all cursors against a reference bracket matcher",
          "Every string of <= 6 (quick) / <= 8 (thorough) lexemes over the property's alphabet is run with every cursor 0..len+2 through the real ReplHighlighter and compared with a 30-line reference matcher; multi-byte and far cursors on an extended alphabet. Exhaustive within the bound, which is the bound the property itself names.",
